@@ -42,6 +42,13 @@ CLAIMED["C09"] = dict(
          "hash/HMAC/HKDF pass-through wrappers. CRC: messages > 2 bytes are decided on parameters (same circuit family).",
     ref="DESIGN.md section 3 C09")
 
+CLAIMED["C19"] = dict(
+    technique="the real BD lexer + LALR parser + semantic actions + SB21Helper executed on program skeletons with "
+              "symbolic integer literals (symx) + z3 QF_BV, against a reference evaluator (C precedence)",
+    note="Programs are enumerated skeletons (bounded depth); literals are symbolic. Out of the claim: .w/.h/.b "
+         "suffixes, keyblob/encrypt/keywrap statements, contents of source files.",
+    ref="DESIGN.md section 3 C19")
+
 NOT_APPLICABLE = {
     "C18": "quantifies over OS-level crash points of a pickle file and over process schedules around a FileLock; the "
            "deciding code is pickle (C) / the file system / the scheduler - no SPSDK arithmetic or layout to encode; "
